@@ -314,7 +314,7 @@ class C17(Spec):
                  "the real headers under a baton scheduler, ASan and life-time tracking of the shared state")
     level_text = ("Lean 4 theorems over a micro-step model of shared_future (one step per atomic operation of future.h/awaiter.h as used by shared_future.h; handle copy/drop are atomic "
                   "reference-count steps) for any number of handle threads, any programs of copy/drop/peek/await (coroutine, blocking, callback), every construction path "
-                  "(both constructors, get_promise() late initialisation, init_if_needed()+operator<<, ready-made factories), every resolver kind and every schedule, by induction "
+                  "(both constructors, get_promise() late initialisation with and without a preceding init_if_needed() and copies taken before get_promise(), init_if_needed()+operator<<, ready-made factories), every resolver kind and every schedule, by induction "
                   "over the schedule with a 42-clause invariant: all observations equal the single result, every awaiter is woken/observes at most once and exactly once at quiescence, "
                   "a state where no thread can move is quiescent (no lost wake-up), the state is alive while pending whatever the handles do, is freed at most once and exactly once "
                   "at quiescence, is never accessed after the free, the tracer is the bottom node of the chain, late initialisation does not crash. The model is tied to the headers by "
@@ -332,7 +332,10 @@ class C17(Spec):
                     "std::shared_ptr, C++20 coroutine machinery and libstdc++ as specified"]
     assumptions = ["every awaiter holds its own handle for as long as it waits (documented contract of shared_future)",
                    "one promise per shared state, not invoked concurrently with its own destruction (competing resolvers are C01's subject)",
-                   "awaiting / operator<< need an initialised object; operator<< is not applied to a pending state (future::result_of contract)",
+                   "Pre (future.h contract, asserted by the code): a state is awaited only after get_promise()/operator<< has initialised it — co_await on a state that only went "
+                   "through init_if_needed() subscribes to an uninitialised future ('Invalid future state' assert, awaiter dropped under NDEBUG); get_promise() is called once, on an "
+                   "object without a state or with a fresh init_if_needed() state — on a pending or already resolved shared_future the unchanged code keeps the state and "
+                   "future::get_promise asserts (no re-arming); operator<< needs a state and is not applied to a pending one (future::result_of contract)",
                    "interleavings are sequentially consistent (memory orders: C03)"]
 
     def suites(self):
